@@ -328,7 +328,9 @@ func hCase(h hJSON) (string, error) {
 var partyHosts = []string{"origin.test", "other.test", "www.direct.test", "localhost", "LocalHost", "127.0.0.1", "127.8.8.8", "[::1]", "vm", "10.1.2.3",
 	// spellings the transport maps to another name before it connects (IDNA compatibility mapping)
 	"\u24de\u24e1igin.test" /* circled o,r: origin.test */, "\uff4f\uff54\uff48\uff45\uff52.test" /* fullwidth: other.test */,
-	"\u24dbocalhost" /* circled l: localhost */, "www.\u24d3irect.test" /* www.direct.test */, "b\u00fccher.test" /* xn--bcher-kva.test */}
+	"\u24dbocalhost" /* circled l: localhost */, "www.\u24d3irect.test" /* www.direct.test */, "b\u00fccher.test" /* xn--bcher-kva.test */,
+	// fully qualified spellings
+	"origin.test.", "localhost.", "\u24de\u24e1igin.test."}
 
 // punyForm is what httpguts.PunycodeHostPort writes for a non-ASCII host: idna.ToASCII, the plain Punycode
 // profile without compatibility mapping (the name itself when it is ASCII or the conversion fails).
@@ -530,11 +532,7 @@ func (r *rig) oracles(kind int, scheme, urlhost string, calls []pacCall) (pacRes
 	}
 	if r.direct != nil {
 		var ents []string
-		names := []string{hostname}
-		if a := asciiForm(hostname); a != hostname {
-			names = append(names, a)
-		}
-		for _, n := range names {
+		for _, n := range nameForms(hostname) {
 			v, err := r.freshDirect(n)
 			if err != nil {
 				panic(err)
@@ -566,12 +564,31 @@ func consistent(hostname string, calls []pacCall, margs []string) bool {
 			return false
 		}
 	}
-	for _, a := range margs { // the matcher may be asked about the name as written and about its ASCII form
-		if a != hostname && a != asciiForm(hostname) {
+	for _, a := range margs { // the matcher may be asked about any of the four spellings of the request's host
+		ok := false
+		for _, n := range nameForms(hostname) {
+			ok = ok || a == n
+		}
+		if !ok {
 			return false
 		}
 	}
 	return true
+}
+
+// nameForms: the host as written, as the transport connects to it (IDNA), each without a trailing dot.
+func nameForms(hostname string) []string {
+	var out []string
+	for _, n := range []string{hostname, asciiForm(hostname), strings.TrimSuffix(hostname, "."), strings.TrimSuffix(asciiForm(hostname), ".")} {
+		dup := false
+		for _, o := range out {
+			dup = dup || o == n
+		}
+		if !dup {
+			out = append(out, n)
+		}
+	}
+	return out
 }
 
 func fCase(r *rig, kind int, scheme, urlhost string) (string, string) {
@@ -861,17 +878,23 @@ func main() {
 		if err != nil {
 			panic(err)
 		}
-		pool := []string{"localhost", "LocalHost", "LOCALHOST", "localhost.", "localhost.test", "notlocalhost", "origin.test", "other.test",
+		pool := []string{"localhost", "LocalHost", "LOCALHOST", "localhost.", "localhost..", "localhost.test", "notlocalhost", "origin.test", "other.test",
 			"127.0.0.1", "127.8.8.8", "127.255.255.254", "128.0.0.1", "126.0.0.1", "10.1.2.3", "0.0.0.0", "0.0.0.1", "1.0.0.0", "127.1", "0127.0.0.1",
-			"127.0.0.1.", "127.0.0", "::1", "::", "0:0:0:0:0:0:0:1", "0:0:0:0:0:0:0:0", "::ffff:127.0.0.1", "::ffff:7f00:1", "::2", "fe80::1", "2001:db8::1", ""}
+			"127.0.0.1.", "127.0.0", "::1", "::", "0:0:0:0:0:0:0:1", "0:0:0:0:0:0:0:0", "::ffff:127.0.0.1", "::ffff:7f00:1", "::2", "fe80::1", "2001:db8::1", "",
+			"::0", "0::0", "::ffff:0.0.0.0", "::1%lo", "::1%", "fe80::1%eth0", "::%1", "0:0:0:0:0:0:0:0:1", "1::", "::ffff:127.1.2.3", "::ffff:128.0.0.1", "0::1", "00:0::01",
+			"\u24dbocalhost", "\uff4c\uff4f\uff43\uff41\uff4c\uff48\uff4f\uff53\uff54", "\u24dbocalhost.", "\u24de\u24e1igin.test", "b\u00fccher.test", "\uff11\uff12\uff17.0.0.1"}
 		for _, a := range aliases {
-			pool = append(pool, a, strings.ToUpper(a), a+"x")
+			pool = append(pool, a, strings.ToUpper(a), a+"x", a+".")
 		}
 		var lc []string
 		var lj []any
 		for _, h := range pool {
-			lc = append(lc, fmt.Sprintf("{| lc_aliases := %s; lc_host := %s; lc_out := %s |}",
-				coqfmt.StrList(aliases), cs(h), coqfmt.Bool(rg.hp.VerifC05IsLocalhost(h))))
+			idnaT := "(@nil (list N * list N))"
+			if a := asciiForm(h); a != h {
+				idnaT = "[(" + cs(h) + ", " + cs(a) + ")]"
+			}
+			lc = append(lc, fmt.Sprintf("{| lc_aliases := %s; lc_idna := %s; lc_host := %s; lc_out := %s |}",
+				coqfmt.StrList(aliases), idnaT, cs(h), coqfmt.Bool(rg.hp.VerifC05IsLocalhost(h))))
 			lj = append(lj, map[string]any{"kind": "localhost", "host": h, "aliases": aliases})
 		}
 		rg.close()
@@ -1075,7 +1098,7 @@ func runConfigs(r *rng.R, nF, nE int, ss *shardSet, m *meta) {
 				fJSON{Kind: "func", Cfg: d, ReqKind: 1, Scheme: "", URLHost: h + ":443"})
 		}
 		if d.IDNA {
-			for _, h := range []string{"\u24de\u24e1igin.test", "\u24dbocalhost", "www.\u24d3irect.test", "\uff4f\uff54\uff48\uff45\uff52.test"} {
+			for _, h := range []string{"\u24de\u24e1igin.test", "\u24dbocalhost", "www.\u24d3irect.test", "\uff4f\uff54\uff48\uff45\uff52.test", "origin.test.", "\u24de\u24e1igin.test.", "localhost."} {
 				jb.e = append(jb.e, eJSON{Kind: "e2e", Cfg: d, SameConn: false, Reqs: []reqSpec{
 					{Kind: 0, URLHost: h}, {Kind: 4, URLHost: h}, {Kind: 2, URLHost: h + ":443"}, {Kind: 3, URLHost: h + ":443"}, {Kind: 1, URLHost: h + ":443"}}})
 				jb.f = append(jb.f, fJSON{Kind: "func", Cfg: d, ReqKind: 0, Scheme: "http", URLHost: h},
@@ -1247,7 +1270,11 @@ func doReplay(path string, ss *shardSet, m *meta) {
 		}
 		defer rg.close()
 		aliases, _ := hostsfile.LocalhostAliases()
-		c := fmt.Sprintf("{| lc_aliases := %s; lc_host := %s; lc_out := %s |}", coqfmt.StrList(aliases), cs(j.Host), coqfmt.Bool(rg.hp.VerifC05IsLocalhost(j.Host)))
+		idnaT := "(@nil (list N * list N))"
+		if a := asciiForm(j.Host); a != j.Host {
+			idnaT = "[(" + cs(j.Host) + ", " + cs(a) + ")]"
+		}
+		c := fmt.Sprintf("{| lc_aliases := %s; lc_idna := %s; lc_host := %s; lc_out := %s |}", coqfmt.StrList(aliases), idnaT, cs(j.Host), coqfmt.Bool(rg.hp.VerifC05IsLocalhost(j.Host)))
 		m.Counts["lcases"] = ss.write("lcases", "lcase", "lcase_model_ok", "lcase_prop_ok", []string{c}, []any{map[string]any{"kind": "localhost", "host": j.Host, "aliases": aliases}})
 	case "history":
 		var j hJSON
